@@ -602,7 +602,7 @@ package mast
 //@ ensures thresholds [C04] (=> (= err anil) (and (= (Mast.height H m) (mod (+ (Mast.height H0 m) 1) 256)) (= (Mast.shrinkBelowSize H m) (Mast.growAfterSize H0 m)) (= (Mast.growAfterSize H m) (* (Mast.growAfterSize H0 m) (Mast.branchFactor H0 m)))))
 //@ ensures atomic [C12] (=> (isErr err) (MastSame H0 H m))
 //@ ensures root [C13] (=> (= err anil) (and (isPtr (Mast.root H m)) (mastNode.dirty H (a.val (Mast.root H m)))))
-//@ loop 1 invariant shape (and (<= (- 1) rangeindex) (<= 0 start) (<= start (+ rangeindex 1)) (<= start (nkeys H node)) (> node 0) (Shape H node) (= (nlinks H newNode&) (+ (nkeys H newNode&) 1)) (MastCfg H m))
+//@ loop 1 invariant shape (and (<= (- 1) rangeindex) (<= 0 start) (<= start (+ rangeindex 1)) (<= start (nkeys H node)) (> node 0) (Shape H node) (= (nlinks H newNode&) (+ (nkeys H newNode&) 1)) (= (nvals H newNode&) (nkeys H newNode&)) (MastCfg H m))
 //@ loop 1 invariant dp [C02 C11 C13] (=> (DirtyPrivate H0) (DirtyPrivate H))
 
 // ---------------------------------------------------------------------------------------
@@ -647,7 +647,7 @@ package mast
 //@ ensures cfg [C01] (=> (= err anil) (MastCfg H m))
 //@ ensures atomic [C12] (=> (isErr err) (MastSame H0 H m))
 //@ ensures dirty [C13] (=> (and (= err anil) (isPtr (Mast.root H m))) (mastNode.dirty H (a.val (Mast.root H m))))
-//@ loop 1 invariant shape (and (<= (- 1) rangeindex) (> node 0) (MastCfg H m))
+//@ loop 1 invariant shape (and (<= (- 1) rangeindex) (> node 0) (Shape H node) (MastCfg H m) (=> (<= (+ rangeindex 1) (nkeys H node)) (and (= (nlinks H newNode&) (nkeys H newNode&)) (= (nvals H newNode&) (nkeys H newNode&)))) (=> (> (+ rangeindex 1) (nkeys H node)) (Shape H newNode&)))
 //@ loop 1 invariant dp [C02 C11 C13] (=> (DirtyPrivate H0) (DirtyPrivate H))
 
 //@ func (*Mast).Delete
